@@ -225,14 +225,21 @@ Record pscan := mkps {
   ps_close_called : bool;
   ps_ctx : bool;
   ps_conns : list pcn;
-  ps_bad : list N          (* codes of violated predicates *)
+  ps_bad : list N;         (* codes of violated predicates *)
+  ps_at_sd : list nat;     (* connections certainly registered (Addr seen) when Shutdown was called *)
+  ps_at_cl : list nat      (* ... when Close was called *)
 }.
 
 Definition getp (s : pscan) (i : nat) : pcn := nth i (ps_conns s) (pcn0 false).
 Definition setp (s : pscan) (i : nat) (p : pcn) : pscan :=
-  mkps (ps_closing_seen s) (ps_close_called s) (ps_ctx s) (upd (ps_conns s) i p) (ps_bad s).
+  mkps (ps_closing_seen s) (ps_close_called s) (ps_ctx s) (upd (ps_conns s) i p) (ps_bad s) (ps_at_sd s) (ps_at_cl s).
 Definition flag (s : pscan) (code : N) : pscan :=
-  mkps (ps_closing_seen s) (ps_close_called s) (ps_ctx s) (ps_conns s) (code :: ps_bad s).
+  mkps (ps_closing_seen s) (ps_close_called s) (ps_ctx s) (ps_conns s) (code :: ps_bad s) (ps_at_sd s) (ps_at_cl s).
+(* ids of the connections for which Addr has been seen *)
+Fixpoint addr_ids (i : nat) (l : list pcn) : list nat :=
+  match l with [] => [] | p :: r => if p_addr p then i :: addr_ids (S i) r else addr_ids (S i) r end.
+Definition open_among (ids : list nat) (s : pscan) : bool :=
+  existsb (fun i => negb (p_closed (nth i (ps_conns s) (pcn0 false)))) ids.
 Definition flag_if (b : bool) (code : N) (s : pscan) : pscan := if b then flag s code else s.
 
 Fixpoint prefix_b (x y : list bool) : bool :=
@@ -248,9 +255,9 @@ Fixpoint prefix_b (x y : list bool) : bool :=
    3 a response whose round trip ended after closing was observed lacks Connection: close   (T11_inflight_completes)
    4 a response write failed although neither the client vanished nor Close was called      (T11_inflight_completes)
    5 another request was read on a connection after a closing response                      (T11_inflight_completes)
-   6 Shutdown returned nil while a registered connection had not been closed                (T11_success_means_drained)
+   6 Shutdown returned nil while a connection registered before the call had not been closed (T11_success_means_drained)
    7 Shutdown returned an error although the context had not expired                        (T11_else_ctx_error)
-   8 Close returned while a registered connection had not been closed                       (T11_close_closes_all)
+   8 Close returned while a connection registered before the call had not been closed       (T11_close_closes_all)
    9 at the end of a settled trace some accepted connection is not closed                   (T11_close_closes_all, counter)
    10 the counter was read negative                                                          (T11_counter_balanced)
    11 at the end of a settled trace a forwarded exchange never had its response written      (T11_inflight_completes)
@@ -258,10 +265,12 @@ Fixpoint prefix_b (x y : list bool) : bool :=
    13 a closing response was written but the client did not see the socket closed            (T11_inflight_completes) *)
 Definition pstep (s : pscan) (l : label) : pscan :=
   match l with
-  | ClosingSeen => mkps true (ps_close_called s) (ps_ctx s) (ps_conns s) (ps_bad s)
-  | ClCall => mkps (ps_closing_seen s) true (ps_ctx s) (ps_conns s) (ps_bad s)
-  | CtxExpire => mkps (ps_closing_seen s) (ps_close_called s) true (ps_conns s) (ps_bad s)
+  | ClosingSeen => mkps true (ps_close_called s) (ps_ctx s) (ps_conns s) (ps_bad s) (ps_at_sd s) (ps_at_cl s)
+  | SdCall => mkps (ps_closing_seen s) (ps_close_called s) (ps_ctx s) (ps_conns s) (ps_bad s) (addr_ids 0 (ps_conns s)) (ps_at_cl s)
+  | ClCall => mkps (ps_closing_seen s) true (ps_ctx s) (ps_conns s) (ps_bad s) (ps_at_sd s) (addr_ids 0 (ps_conns s))
+  | CtxExpire => mkps (ps_closing_seen s) (ps_close_called s) true (ps_conns s) (ps_bad s) (ps_at_sd s) (ps_at_cl s)
   | Acc i => mkps (ps_closing_seen s) (ps_close_called s) (ps_ctx s) (ps_conns s ++ [pcn0 (ps_closing_seen s)]) (ps_bad s)
+                  (ps_at_sd s) (ps_at_cl s)
   | Addr i => let p := getp s i in
       setp s i (mkp (p_fb_late p) (p_acc_late p) true (p_closed p) (p_inflight p) (p_rt_late p) (p_must_close p)
                     (p_gone p) (p_connect p) (p_wrote p) (p_cli p) (p_cli_bad p) (p_eof p))
@@ -302,14 +311,14 @@ Definition pstep (s : pscan) (l : label) : pscan :=
   | CliEOF i => let p := getp s i in
       setp s i (mkp (p_fb_late p) (p_acc_late p) (p_addr p) (p_closed p) (p_inflight p) (p_rt_late p) (p_must_close p)
                     (p_gone p) (p_connect p) (p_wrote p) (p_cli p) (p_cli_bad p) true)
-  | SdRet true => flag_if (existsb (fun p => p_addr p && negb (p_closed p)) (ps_conns s)) 6 s
+  | SdRet true => flag_if (open_among (ps_at_sd s) s) 6 s
   | SdRet false => flag_if (negb (ps_ctx s)) 7 s
-  | ClRet => flag_if (existsb (fun p => p_addr p && negb (p_closed p)) (ps_conns s)) 8 s
+  | ClRet => flag_if (open_among (ps_at_cl s) s) 8 s
   | CntIs k => flag_if (k <? 0) 10 s
   | _ => s
   end.
 
-Definition pscan0 : pscan := mkps false false false [] [].
+Definition pscan0 : pscan := mkps false false false [] [] [] [].
 
 (* what a client saw must be what the proxy wrote: all of it if the client stayed, a prefix if it left *)
 Definition client_view_ok (p : pcn) : bool :=
